@@ -96,6 +96,12 @@ def cases(ctx):
     add("recursion", "*=0x008000\n.macro r() {\nr()\n}\nr()\n")
     add("recursion", "*=0x008000\n.macro a() {\nb()\n}\n.macro b() {\na()\n}\na()\n")
     add("recursion", "*=0x008000\n.macro r(n) {\n.db n\n.if n {\nr(n - 1)\n}\n}\nr(40)\n")
+    # unbounded recursion guarded by a condition over an outer symbol, with two self-applications / one inside a loop:
+    # only the recursion limit ends it, and it must end it at once (not after re-descending 2^depth times)
+    add("recursion", "LIMIT := 1\n*=0x008000\n.macro zz_r(d) {\n.if LIMIT {\nzz_r(d)\nzz_r(d)\n}\n}\nzz_r(0)\n")
+    add("recursion", "LIMIT := 1\n*=0x008000\n.macro zz_r(d) {\n.if LIMIT {\n.for zz_i := 0, 2 {\nzz_r(d)\n}\n}\n}\nzz_r(0)\n")
+    add("recursion", "*=0x008000\n.macro zz_r(d) {\n.if d {\nzz_r(d)\nzz_r(d)\nzz_r(d)\n} else {\nzz_r(1)\nzz_r(1)\n}\n}\nzz_r(0)\n")
+    add("recursion", "*=0x008000\n.macro zz_r(c) {\n{{c}}\n}\n.macro zz_q() {\nzz_r({\nzz_q()\nzz_q()\n})\n}\nzz_q()\n")
     add("cyclic-include", "*=0x008000\n.include 'a.s'\n", {"a.s": ".include 'b.s'\n", "b.s": ".include 'a.s'\n"})
     add("self-include", "*=0x008000\n.include 'prog.s'\n", {"prog.s": "*=0x008000\n.include 'prog.s'\n"})
     add("loop", "*=0x008000\n.for i := 0, 300 {\n.db i\n}\n")
